@@ -135,3 +135,34 @@ Proof.
   split; [apply error_cmp_refl|]. split; [apply error_cmp_eq|]. split; [apply error_cmp_antisym|].
   split; [apply error_cmp_trans|]. split; [apply error_cmp_total|apply error_descending].
 Qed.
+
+(* ---------- min / max / clamp (Ord's provided methods) ---------- *)
+(* std: max(a, b) = if a > b then a else b; min(a, b) = if a > b then b else a (with the type's own order);
+   clamp(x, lo, hi) = if x < lo then lo else if x > hi then hi else x, for lo <= hi *)
+Definition omax (c : Z -> Z -> comparison) (a b : Z) : Z := match c a b with Gt => a | _ => b end.
+Definition omin (c : Z -> Z -> comparison) (a b : Z) : Z := match c a b with Gt => b | _ => a end.
+Definition oclamp (c : Z -> Z -> comparison) (x lo hi : Z) : Z :=
+  match c x lo with Lt => lo | _ => match c x hi with Gt => hi | _ => x end end.
+
+Lemma omax_omin_score a b : omax score_cmp a b = Z.max a b /\ omin score_cmp a b = Z.min a b.
+Proof.
+  unfold omax, omin, score_cmp, Z.max, Z.min. destruct (a ?= b) eqn:E; try (split; reflexivity).
+  apply Z.compare_eq in E. subst. split; reflexivity.
+Qed.
+(* for errors the better (= greater) value is the numerically smaller one *)
+Lemma omax_omin_error a b : omax error_cmp a b = Z.min a b /\ omin error_cmp a b = Z.max a b.
+Proof.
+  unfold omax, omin, error_cmp, Z.max, Z.min. destruct (a ?= b) eqn:E; cbn [CompOpp]; try (split; reflexivity).
+  apply Z.compare_eq in E. subst. split; reflexivity.
+Qed.
+(* in either order: max is an upper and min a lower bound, and both are one of the arguments *)
+Lemma omax_bound c a b : (c = score_cmp \/ c = error_cmp) ->
+  c (omax c a b) a <> Lt /\ c (omax c a b) b <> Lt /\ c (omin c a b) a <> Gt /\ c (omin c a b) b <> Gt /\
+  (omax c a b = a \/ omax c a b = b) /\ (omin c a b = a \/ omin c a b = b).
+Proof.
+  intros [-> | ->]; unfold omax, omin, score_cmp, error_cmp;
+    destruct (a ?= b) eqn:E; cbn [CompOpp]; rewrite ?Z.compare_refl; cbn [CompOpp];
+    try (apply Z.compare_eq in E; subst; rewrite ?Z.compare_refl; cbn [CompOpp]);
+    repeat split; try discriminate; auto;
+    try (rewrite Z.compare_antisym, E; cbn; discriminate); try (rewrite E; cbn; discriminate).
+Qed.
